@@ -50,3 +50,120 @@ UNITS = [
                           "all(result_lines[k + 1] == rec_line(k) for k in range(_i0))"]}},
        native=gen_depth),
 ]
+
+
+# ---------------------------------------------------------------- flat / iterative unfolding programs (bounded)
+import itertools
+import re
+
+
+def parse_lib(text):
+  makes, grounds, iters = {}, [], []
+  for line in text.split('\n'):
+    m = re.match(r'^(\w+) := (\w+)\((.*)\);$', line)
+    if m:
+      args = {}
+      if m.group(3).strip():
+        for part in m.group(3).split(', '):
+          k, v = part.split(': ')
+          args[k] = v
+      assert m.group(1) not in makes, 'defined twice: ' + m.group(1)
+      makes[m.group(1)] = (m.group(2), args)
+      continue
+    m = re.match(r'^@Ground\((\w+)(?:, (\w+))?(?:, copy_to_file: "[^"]*")?\);$', line)
+    if m:
+      grounds.append((m.group(1), m.group(2)))
+      continue
+    m = re.match(r'^@Iteration\((\w+), predicates: \[(.*)\], repetitions: (-?\d+)(?:, stop_signal: "[^"]*")?\);$', line)
+    if m:
+      iters.append((m.group(1), m.group(2).split(', '), int(m.group(3))))
+      continue
+    raise AssertionError('unexpected line %r' % line)
+  return makes, grounds, iters
+
+
+def covers():
+  for names in (['A'], ['A', 'B'], ['A', 'B', 'C']):
+    for bits in itertools.product([0, 1], repeat=len(names) * len(names)):
+      d = {p: [q for j, q in enumerate(names) if bits[i * len(names) + j]] + ['Ext'] for i, p in enumerate(names)}
+      yield set(names), d
+
+
+def flat_ok(text, depth, cover, direct, tag='fr', steps=None):
+  makes, grounds, iters = parse_lib(text)
+  steps = depth + 1 if steps is None else steps
+  for p in cover:
+    for i in range(steps):
+      f, args = makes['%s_%s%d' % (p, tag, i)]
+      want = {'%s_RZero' % a: ('nil' if i == 0 else '%s_%s%d' % (a, tag, i - 1)) for a in set(direct[p]) & cover}
+      if f != p + '_ROne' or args != want:
+        return 'generation %d of %s is %s(%s), should read generation %d of every member it calls' % (i, p, f, args, i - 1)
+    if makes[p] != ('%s_%s%d' % (p, tag, steps - 1), {}):
+      return '%s is not generation %d' % (p, steps - 1)
+  if len(makes) != len(cover) * (steps + 1):
+    return 'unexpected extra definitions'
+  return None
+
+
+def gen_flat(tier, mod):
+  n = 0
+  for cover, direct in covers():
+    n += 1
+    if tier == 'quick' and len(cover) == 3 and n % 17:
+      continue
+    for depth in (0, 1, 2, 5):
+      yield {'args': [depth, cover, direct], 'env': {'flat_ok': flat_ok},
+             'show': {'depth': depth, 'cover': sorted(cover), 'direct_args_of': direct}}
+
+
+def iter_ok(text, depth, cover, direct, ign):
+  msg = flat_ok('\n'.join(l for l in text.split('\n') if ':=' in l), depth, cover, direct, tag='ifr', steps=ign)
+  if msg:
+    return msg
+  makes, grounds, iters = parse_lib(text)
+  g = dict(grounds)
+  for p in cover:
+    for i in range(ign):
+      name = '%s_ifr%d' % (p, i)
+      if name not in g:
+        return '%s is not grounded' % name
+      if g[name] != ('%s_ifr%d' % (p, i - 2) if i == ign - 2 else None):
+        return '%s grounded onto %r' % (name, g[name])
+  if len(iters) != 1:
+    return 'exactly one @Iteration expected'
+  it, preds, reps = iters[0]
+  want = ['%s_ifr%d' % (p, ign - 3) for p in sorted(cover)] + ['%s_ifr%d' % (p, ign - 2) for p in sorted(cover)]
+  if preds != want:
+    return 'iteration members %r, expected upper half then lower half in sorted member order %r' % (preds, want)
+  if reps != (depth + 1 - ign) // 2 + 1:
+    return 'repetitions %d, expected (depth + 1 - ignition) // 2 + 1 = %d' % (reps, (depth + 1 - ign) // 2 + 1)
+  return None
+
+
+def gen_iter(tier, mod):
+  n = 0
+  for cover, direct in covers():
+    n += 1
+    if (tier == 'quick' and n % 7) or len(cover) == 3 and n % 29:
+      continue
+    for depth in (21, 22, 25, 40):
+      ign = len(cover) + 3
+      if ign % 2 == depth % 2:
+        ign += 1
+      for stop in (None, sorted(cover)[0]):
+        yield {'args': [depth, cover, direct, ign, stop], 'env': {'iter_ok': iter_ok, 'ign': ign},
+               'show': {'depth': depth, 'cover': sorted(cover), 'ignition': ign, 'stop': stop}}
+
+
+UNITS += [
+  unit(RL, 'GetFlatRecursionFunctor', props=['C03'], deductive=False, params=['depth', 'cover', 'direct_args_of'],
+       # for every member p and 0 <= i <= depth, p_fr{i} binds a_RZero of every member a it calls to nil (i = 0) or
+       # a_fr{i-1}; p is p_fr{depth}: depth+1 simultaneous applications
+       ensures=["flat_ok(result, depth, cover, direct_args_of) is None"], native=gen_flat),
+  unit(RL, 'GetFlatIterativeRecursionFunctor', props=['C03', 'C14'], deductive=False,
+       params=['depth', 'cover', 'direct_args_of', 'ignition_steps', 'stop'],
+       ensures=["iter_ok(result, depth, cover, direct_args_of, ignition_steps) is None"], native=gen_iter),
+  unit(RL, 'GetRenamingFunctor', props=['C03'], deductive=False, params=['member', 'root'],
+       ensures=["result == member + ' := ' + member + '_recursive_head(' + root + '_recursive: ' + root + ');'"],
+       native=lambda tier, mod: ({'args': [m, r], 'show': [m, r]} for m in ('B', 'Cc') for r in ('A', 'Root'))),
+]
